@@ -524,6 +524,10 @@ func c19Units(tier string) []Unit {
 	if !q {
 		add("three-scopes-fork", nil, prefixFork, tree, false)
 	}
+	// registrations rejected for a cycle in the target scope, only in a
+	// descendant, or through Export: no cluster for them, none lost
+	rings := alpha{scopes: []int{0, 1}, ctors: []*uFunc{D("DB"), D("DrAB"), D("DrBC"), D("DrCA"), D("DB0")}, export: true, invokes: []*uFunc{iA}}
+	add("rejected-by-cycle", nil, prefixChild, rings, false)
 	// failures: every single constructor fault at depth 1-3, also through groups; missing types arise by not providing
 	chain := alpha{scopes: []int{0, 1}, ctors: []*uFunc{D("DAe"), D("DBe"), D("DCe"), D("DD"), D("DBn")}, invokes: []*uFunc{iA, iB, iC, iD, DiCeSpec}}
 	groups := alpha{scopes: []int{0, 1}, ctors: []*uFunc{D("DG1e"), D("DG2"), D("DCge"), D("DD"), D("DM")}, invokes: []*uFunc{iG, iC, iD}}
@@ -537,6 +541,10 @@ func c19Units(tier string) []Unit {
 	}
 	add("missing-types/chain", nil, prefixChild, chain, false)
 	add("missing-types/groups", nil, prefixChild, groups, false)
+	// group members with dependencies of their own (missing, or failing)
+	deepGroups := alpha{scopes: []int{0, 1}, ctors: []*uFunc{D("DGb"), D("DG2"), D("DCg"), D("DBe"), D("DAe")}, invokes: []*uFunc{iG, iC}}
+	add("missing-types/group-member-deps", nil, prefixChild, deepGroups, false)
+	add("fault-groups/member-dep-fails", map[string][]u.Beh{"DBe": {u.BehErr}}, prefixChild, deepGroups, true)
 	return units
 }
 
